@@ -1762,6 +1762,84 @@ def operand_grid_checks(ctx, fails, counts):
             break
 
 
+LINEAR_SESSION_SOURCE = """
+!transition-variables x, y, z
+!transition-shocks ex, ey
+!parameters rho, a, b, c
+!transition-equations
+  x = rho*x[-1] + (1-rho)*c + a*ey + ex;
+  y = b*y[-1] + a*x + rho*z[+1] + ey;
+  z = a*b*x[-1] + c*y;
+!measurement-variables o
+!measurement-shocks w
+!measurement-equations
+  o = a*x + b*z + w;
+"""
+
+
+def _sys_mats(m):
+    with quiet():
+        s = m.systemize()
+    if not isinstance(s, (list, tuple)):
+        s = [s]
+    return [[np.array(getattr(v, k), dtype=float) for k in ("A", "B", "C", "D", "F", "G", "H", "J")] for v in s]
+
+
+def falsify_evaluation_sessions(ctx, fails, counts):
+    """The derivative is the true one AT ANY ADMISSIBLE EVALUATION POINT: the point includes the parameter values, and one model
+    object is evaluated at several points (parameter variants; assign -> systemize -> assign -> systemize).  Whatever is kept
+    between evaluations (the aldi context lives in the invariant shared by all variants), the matrices of the k-th evaluation
+    must be those a freshly built model returns for the same parameter values (the true derivative is unique, so a difference
+    means one of the two is wrong).  linear=True and linear=False models."""
+    import irispie as ir
+    rng = ctx.rng
+    counts["session_models"] = 0
+
+    def fresh(linear, vals):
+        m = ir.Simultaneous.from_string(LINEAR_SESSION_SOURCE, linear=linear)
+        m.assign(**vals)
+        return _sys_mats(m)[0]
+
+    def draw():
+        return {"rho": round(rng.uniform(0.1, 0.9), 3), "a": round(rng.uniform(0.5, 3.0), 3), "b": round(rng.uniform(0.1, 0.9), 3),
+                "c": round(rng.uniform(-2, 2), 3), "x": 0.0, "y": 0.0, "z": 0.0, "o": 0.0}
+
+    for it in range(ctx.scale(8, 120)):
+        linear = it % 2 == 0
+        pts = [draw() for _ in range(rng.randint(2, 4))]
+        kind = "variants" if it % 4 < 2 else "reassign"
+        inp = {"source": LINEAR_SESSION_SOURCE, "linear": linear, "kind": kind, "points": pts}
+        try:
+            m = ir.Simultaneous.from_string(LINEAR_SESSION_SOURCE, linear=linear)
+            got = []
+            if kind == "variants":
+                m.alter_num_variants(len(pts))
+                m.assign(**{k: [p_[k] for p_ in pts] for k in pts[0]})
+                got = _sys_mats(m)
+            else:
+                for p_ in pts:
+                    m.assign(**p_)
+                    got.append(_sys_mats(m)[0])
+            counts["session_models"] += 1
+            for k_, p_ in enumerate(pts):
+                want = fresh(linear, p_)
+                for nm, g_, w_ in zip("ABCDFGHJ", got[k_], want):
+                    if g_.shape != w_.shape or not np.allclose(g_, w_, rtol=1e-9, atol=1e-12, equal_nan=True):
+                        fails.append(Failure(f"session:{kind}:{'linear' if linear else 'nonlinear'}:{nm}",
+                                             f"systemize() evaluation number {k_ + 1} on one model object ({kind}) returns a matrix {nm} that differs "
+                                             "from the one a freshly built model returns for the same parameter values",
+                                             dict(inp, evaluation=k_), g_.tolist(), w_.tolist(),
+                                             "m = irispie.Simultaneous.from_string(source, linear=linear); evaluate at points[0..k] "
+                                             "(alter_num_variants+assign lists | assign/systemize in turn); compare m.systemize() with a fresh model"))
+                        raise StopIteration
+        except StopIteration:
+            pass
+        except HarnessError:
+            raise
+        except Exception as e:  # noqa
+            counts.setdefault("session_errors", []).append(f"{type(e).__name__}: {e}"[:160])
+
+
 def falsify(ctx, hints):
     rng = ctx.rng
     fails: list[Failure] = []
@@ -1820,6 +1898,7 @@ def falsify(ctx, hints):
     operand_grid_checks(ctx, fails, counts)
     falsify_terminal(ctx, fails, counts)
     user_function_checks(ctx, fails, counts)
+    falsify_evaluation_sessions(ctx, fails, counts)
     seen, uniq = set(), []
     for f_ in fails:
         if f_.key not in seen:
